@@ -45,6 +45,13 @@ theorem norm_sq_lift (i Ω ω X Y : ℝ) :
       = X ^ 2 + Y ^ 2 := by
   linear_combination X ^ 2 * P_unit i Ω ω + Y ^ 2 * Q_unit i Ω ω + 2 * X * Y * PQ_orth i Ω ω
 
+/-- **the rotation preserves the scalar product**: `(X P + Y Q)·(U P + V Q) = X U + Y V` -/
+theorem dot_lift (i Ω ω X Y U V : ℝ) :
+    (X * P1 i Ω ω + Y * Q1 i Ω ω) * (U * P1 i Ω ω + V * Q1 i Ω ω)
+      + (X * P2 i Ω ω + Y * Q2 i Ω ω) * (U * P2 i Ω ω + V * Q2 i Ω ω)
+      + (X * P3 i Ω ω + Y * Q3 i Ω ω) * (U * P3 i Ω ω + V * Q3 i Ω ω) = X * U + Y * V := by
+  linear_combination X * U * P_unit i Ω ω + Y * V * Q_unit i Ω ω + (X * V + Y * U) * PQ_orth i Ω ω
+
 /-- a constant linear combination of two differentiable functions -/
 theorem hasDerivAt_comb {X Y : ℝ → ℝ} {X' Y' t : ℝ} (hX : HasDerivAt X X' t) (hY : HasDerivAt Y Y' t) (p q : ℝ) :
     HasDerivAt (fun t => X t * p + Y t * q) (X' * p + Y' * q) t :=
